@@ -108,8 +108,8 @@ func (c *Ctx) Fail(fp, what, req, impl, expected string) {
 	if c.failKeys[fp] > 5 {
 		return
 	}
-	if len(req) > 20000 {
-		req = req[:20000] + "…"
+	if len(req) > 400000 {
+		req = req[:400000] + "…"
 	}
 	c.St.Failures = append(c.St.Failures, Failure{fp, what, req, impl, expected})
 }
